@@ -29,7 +29,10 @@ def run(ctx, rep):
     for which in ("instrument", "sync", "global"):
         check_track_sections(ctx, r2, which)
         c, pf, order, idx, pcall = kinds_of(ctx, which)
+        if pf is None:
+            pf = c.find_method("from_chart_lines") or c
         if order is None:
+            fail(r2, ctx, pf, getattr(pf, "node", None), f"cannot read the kinds tried in the {which} section at its dispatch site")
             continue
         group = []
         for cq in order:
@@ -54,3 +57,6 @@ def run(ctx, rep):
                             "hands the lines on unchanged", floor=10)
     from .chain import check_chain
     check_chain(ctx, rch, "all", strict=True)
+    rfo = rep.rule("folds", "each kind's data are folded datum by datum, in order, by that kind's own builder with its predecessor and the tempo map", floor=6)
+    from .timing import Timing as _T
+    _T(ctx).check_folds(rfo)
